@@ -485,7 +485,7 @@ func c19Probe(c *core.Ctx, s *wire.Session, dir string, ref c19Settings, legal m
 func checkC19(c *core.Ctx) {
 	dir := filepath.Join(c.Scratch, "c19")
 	_ = os.MkdirAll(dir, 0o755)
-	_ = os.WriteFile(filepath.Join(dir, "big.journal"), []byte("; "+strings.Repeat("x", 2000)+"\n2001-05-01 big\n    expenses:big  1 EUR\n    assets:big  -1 EUR\n"), 0o644)
+	_ = os.WriteFile(filepath.Join(dir, "big.journal"), []byte("; "+strings.Repeat("x", 2000)+"\n2001-05-01 big\n    expenses:food0  1 EUR\n    assets:a-much-longer-account-name0  -1 EUR\n"), 0o644)
 	_ = os.WriteFile(filepath.Join(dir, "main.journal"), []byte("include probe.journal\n"), 0o644)
 	_ = os.WriteFile(filepath.Join(dir, "probe.journal"), []byte(""), 0o644)
 	if c.Replay != nil {
